@@ -94,3 +94,44 @@ def ranges_intersect(a: object, b: object) -> bool:
         or opt_min(a.max_value, b.max_value) is None
         or opt_max(a.min_value, b.min_value) <= opt_min(a.max_value, b.max_value)
     )
+
+
+def is_self_prop(e: object) -> bool:
+    """``self.<name>``"""
+    return (
+        isinstance(e, parse_tree.Member)
+        and isinstance(e.instance, parse_tree.Name)
+        and e.instance.identifier == "self"
+    )
+
+
+def is_guard_implication(node: object) -> bool:
+    """``not (self.p is not None) or C`` (parsed as an implication)."""
+    return (
+        isinstance(node, parse_tree.Implication)
+        and isinstance(node.antecedent, parse_tree.IsNotNone)
+        and is_self_prop(node.antecedent.value)
+    )
+
+
+def is_guard_disjunction(node: object) -> bool:
+    """``self.p is None or C`` -- exactly two disjuncts."""
+    return (
+        isinstance(node, parse_tree.Or)
+        and len(node.values) == 2
+        and isinstance(node.values[0], parse_tree.IsNone)
+        and is_self_prop(node.values[0].value)
+    )
+
+
+def is_guarded_form(node: object) -> bool:
+    """The "optional guard" forms the property admits."""
+    return is_guard_implication(node) or is_guard_disjunction(node)
+
+
+def guard_prop(node: object) -> str:
+    return node.antecedent.value.name if is_guard_implication(node) else node.values[0].value.name
+
+
+def guarded_consequent(node: object) -> object:
+    return node.consequent if is_guard_implication(node) else node.values[1]
